@@ -639,6 +639,8 @@ class FunctionParser(BaseParser):
 
                 if field:
                     if field.is_no_input(arg, options=context.options):
+                        # the position is taken (by the default): the keyword pass must not fill the parameter again
+                        parsed_keys.append(field.attname)
                         arg = field.get_default(options=context.options)
                     else:
                         parsed_keys.append(field.attname)
